@@ -91,6 +91,21 @@ fn interference<T: Dom>(vk: VK, other: VK, k: usize) {
         T::oblige(&format!("{} t={t}: output unaffected by a second live instance ({}) fed another stream", vk.name(), other.name()), opt_ident(a.last(), alone[t]));
     }
 }
+/// like `interference`, but the other instance is constructed (and fed) before the view under test exists
+fn interference2<T: Dom>(vk: VK, other: VK, k: usize) {
+    let xs: Vec<T> = (0..k).map(|t| T::input(&format!("x{t}"))).collect();
+    let mut a0 = mk::<T>(&vk, &None);
+    let alone: Vec<Option<T>> = xs.iter().map(|x| { a0.update(*x); a0.last() }).collect();
+    drop(a0);
+    let mut b = mk::<T>(&other, &None);
+    for t in 0..k { b.update(T::input(&format!("z{t}"))); let _ = b.last(); }
+    let mut a = mk::<T>(&vk, &None);
+    for t in 0..k {
+        b.update(T::input(&format!("w{t}"))); let _ = b.last();
+        a.update(xs[t]);
+        T::oblige(&format!("{} t={t}: output unaffected by an older live instance {} of the same type", vk.name(), other.name()), opt_ident(a.last(), alone[t]));
+    }
+}
 pub fn units(tier: Tier, seed: u64) -> Vec<Unit> {
     let q = tier == Tier::Quick;
     let ns: Vec<usize> = vec![2, 3];
@@ -130,6 +145,15 @@ pub fn units(tier: Tier, seed: u64) -> Vec<Unit> {
                 let mut b = unit!(format!("C17/interference/{} vs {}/k={k}", vk.name(), other.name()), interference(vk.clone(), other.clone(), k)); b.concolic = Some(seed + 32); u.push(b);
             }
         }
+    }
+    // same view type, same window length, different secondary parameters alive at once
+    for (a, b) in [(VK::Alma(3), VK::AlmaCustom(3, 2.0, 0.3)), (VK::AlmaCustom(4, 3.0, 0.5), VK::Alma(4)), (VK::Ema(3), VK::EmaAlpha(3, 1.0)), (VK::EmaAlpha(2, 0.5), VK::Ema(2)), (VK::LaguerreFilter(0.5), VK::LaguerreFilter(0.8)),
+        (VK::Roofing(3, 2), VK::Roofing(3, 3)), (VK::Roofing(2, 3), VK::Roofing(4, 3)), (VK::Gte(0.25), VK::Gte(0.5)), (VK::Lte(0.25), VK::Lte(-1.0)), (VK::Constant(1.5), VK::Constant(2.5)),
+        (VK::PFE(3, Box::new(VK::Echo)), VK::PFE(3, Box::new(VK::Ema(2)))), (VK::EFT(2, Box::new(VK::Echo)), VK::EFT(2, Box::new(VK::Ema(2)))), (VK::NET(3), VK::NET(5)), (VK::NET(5), VK::NET(3)), (VK::CTI(3), VK::CTI(5)), (VK::Min(2), VK::Min(4)), (VK::Max(4), VK::Max(2))] {
+        // the second instance is created first (and stays alive), as a shared table would be built by whoever comes first
+        let mut x = unit!(format!("C17/interference/{} vs {} (created first)/k=6", a.name(), b.name()), interference2(a.clone(), b.clone(), 6usize));
+        x.concolic = Some(seed + 33);
+        u.push(x);
     }
     // binary combinators (Add is not Clone: twin/purity only) over (Sma(2), Echo)
     // seeded two-level chains
